@@ -122,3 +122,42 @@ Proof.
                  | apply Forall_cons | apply Forall_nil | split]);
     try reflexivity; try (unfold in_field, in32, in64; lia); try (unfold small_len; vm_compute; reflexivity); try (vm_compute; reflexivity).
 Qed.
+
+(* The written file as a whole, re-read by load_module's model (header parser, then xdis's unmarshaller on the bytes after the header):
+   for every writable magic of a 3.0-3.10 version, every 32-bit timestamp and size and every well-formed code-object tree whose
+   serialisation consists of bytes, the file write_bytecode_file produces is read back to that timestamp, size, and tree. *)
+Theorem C13_file_reread : forall p m v mb ts size (repr_float : Z -> list Z) code,
+  In (m, v, mb) writable -> In m all_magics -> py3_pre311_magic m = true ->
+  0 <= ts < 4294967296 -> 0 <= size < 4294967296 ->
+  code_wfv (xdis_cfg m) code ->
+  let payload := dumps repr_float (posonly_read (xdis_cfg m)) false code in
+  bytes_ok payload = true ->
+  exists hdr h, write_header m ts size = Ok hdr /\ parse_header p (hdr ++ payload) = Ok h /\
+    firstn 2 (h_version h) = v /\ h_timestamp h = Some ts /\ h_size h = (if tuple_geb v [3; 3] then Some size else None) /\ h_sip h = None /\
+    load (xdis_cfg m) (h_rest h) = Ok (textify repr_float code, {| inp := []; refs := []; strs := [] |}).
+Proof.
+  intros p m v mb ts size repr_float code Hw Hin H3 Hts Hsz Hc payload Hb.
+  destruct (C13_header_reread p m v mb ts size payload Hw Hb Hts Hsz) as (hdr & h & E1 & E2 & E3 & E4 & E5 & E6 & E7).
+  exists hdr, h. repeat split; try assumption. rewrite E7. exact (C13_payload_xdis_rereads m repr_float code Hin H3 Hc).
+Qed.
+
+(* the same for Python 2.0-2.7 targets *)
+Theorem C13_file_reread2 : forall p m v mb ts size (repr_float : Z -> list Z) code,
+  In (m, v, mb) writable -> In m all_magics -> py2_magic m = true ->
+  0 <= ts < 4294967296 -> 0 <= size < 4294967296 ->
+  code_wfv2 (xdis_cfg m) code ->
+  let payload := dumps2 repr_float (vge (xdis_cfg m) [2; 3]) code in
+  bytes_ok payload = true ->
+  exists hdr h, write_header m ts size = Ok hdr /\ parse_header p (hdr ++ payload) = Ok h /\
+    firstn 2 (h_version h) = v /\ h_timestamp h = Some ts /\ h_size h = (if tuple_geb v [3; 3] then Some size else None) /\ h_sip h = None /\
+    load (xdis_cfg m) (h_rest h) = Ok (textify repr_float code, {| inp := []; refs := []; strs := [] |}).
+Proof.
+  intros p m v mb ts size repr_float code Hw Hin H2 Hts Hsz Hc payload Hb.
+  destruct (C13_header_reread p m v mb ts size payload Hw Hb Hts Hsz) as (hdr & h & E1 & E2 & E3 & E4 & E5 & E6 & E7).
+  exists hdr, h. repeat split; try assumption. rewrite E7. exact (C13_payload2_xdis_rereads m repr_float code Hin H2 Hc).
+Qed.
+
+Example C13_file_nonvacuous :
+  existsb (fun '(m, v, _) => (m =? 3413) && zlist_eqb v [3; 8]) writable = true /\ existsb (fun '(m, v, _) => (m =? 62211) && zlist_eqb v [2; 7]) writable = true
+  /\ bytes_ok (dumps (fun _ => []) true false ex_code38) = true /\ bytes_ok (dumps2 (fun _ => []) true ex_code27) = true.
+Proof. repeat split; vm_compute; reflexivity. Qed.
